@@ -7,4 +7,5 @@ INVARIANT SavedReadsBack
 INVARIANT NoAuthorLostOrMerged
 INVARIANT EveryRoleHasOneAuthor
 INVARIANT ContentInCallOrder
+INVARIANT NameIsLastGiven
 CHECK_DEADLOCK FALSE
